@@ -51,7 +51,7 @@ end Model
 /-! ### the spin-free variant (`spinfree = True`): operators also carry a spin slot (position mod rank); a contraction
     inside one slot doubles the factor, a contraction between two slots merges them; at the end creators and
     annihilators are bubble-sorted by slot, every swap flipping the sign.  Executable model, tied to the library by the
-    correspondence run (`wicknfsf`); its soundness theorem is not proved. -/
+    correspondence run (`wicknfsf`); soundness: Lemmas/WickSF.lean. -/
 namespace Model
 
 structure WItemSF where
@@ -86,34 +86,46 @@ def wnormalizeSF : Nat → List WItemSF → List WItemSF
     let out := l.flatMap wstepSF
     if l.any (fun it => (splitPairSF it.ops).isSome) then wnormalizeSF fuel out else out
 
-/-- one sweep `for j in range(1, nterms)` of the final spin sort over an array of operators -/
-def spinSweep (nterms : Nat) : Nat → Array (Nat × Bool × Nat) × Bool × Bool → Array (Nat × Bool × Nat) × Bool × Bool
-  | 0, st => st
-  | k+1, st =>
-    let j := nterms - (k + 1)                  -- j runs 1 .. nterms-1 as k+1 runs nterms-1 .. 1
-    let (c, neg, ch) := st
-    let sl := fun (i : Nat) => (c.getD i (0, false, 0)).2.2
-    let (c, neg, ch) := if sl (j - 1) > sl j then (c.swapIfInBounds (j - 1) j, !neg, true) else (c, neg, ch)
-    let sl := fun (i : Nat) => (c.getD i (0, false, 0)).2.2
-    let (c, neg, ch) :=
-      if sl (j - 1 + nterms) > sl (j + nterms) then (c.swapIfInBounds (j - 1 + nterms) (j + nterms), !neg, true) else (c, neg, ch)
-    spinSweep nterms k (c, neg, ch)
+/-- one left-to-right sweep `for j in 1 .. n-1: if slot[j-1] > slot[j]: swap` over a list, carrying the element that
+    currently sits at position `j-1`; returns the new list and the parity of the number of swaps -/
+def sweepCarry (c : Nat × Bool × Nat) : List (Nat × Bool × Nat) → List (Nat × Bool × Nat) × Bool
+  | [] => ([c], false)
+  | b :: t =>
+    if c.2.2 > b.2.2 then
+      let r := sweepCarry c t
+      (b :: r.1, !r.2)
+    else
+      let r := sweepCarry b t
+      (c :: r.1, r.2)
 
-def spinSort (nterms : Nat) : Nat → Array (Nat × Bool × Nat) × Bool → Array (Nat × Bool × Nat) × Bool
-  | 0, st => st
-  | fuel+1, (c, neg) =>
-    let (c', neg', ch) := spinSweep nterms (nterms - 1) (c, neg, false)
-    if ch then spinSort nterms fuel (c', neg') else (c', neg')
+def sweep : List (Nat × Bool × Nat) → List (Nat × Bool × Nat) × Bool
+  | [] => ([], false)
+  | a :: t => sweepCarry a t
 
+/-- `k` sweeps (a sweep over a sorted list changes nothing, so `length` sweeps reach the fixed point at which the
+    library's `while processed` loop stops) -/
+def sweeps : Nat → List (Nat × Bool × Nat) → List (Nat × Bool × Nat) × Bool
+  | 0, l => (l, false)
+  | k+1, l =>
+    let r := sweep l
+    let r2 := sweeps k r.1
+    (r2.1, r.2 ^^ r2.2)
+
+/-- the closing spin sort: the first half (creators) and the second half (annihilators) of the operators are each
+    bubble-sorted by slot, every exchange flipping the sign (the library interleaves the two sweeps in one loop over
+    `j`; the halves are disjoint, so the result is the same) -/
 def finishSF (it : WItemSF) : WItemSF :=
-  let nterms := it.ops.length / 2
-  let (c, neg) := spinSort nterms (it.ops.length * it.ops.length + 1) (it.ops.toArray, it.neg)
-  ⟨it.deltas, c.toList, neg, it.twos⟩
+  let n := it.ops.length / 2
+  let c := sweeps n (it.ops.take n)
+  let a := sweeps n (it.ops.drop n)
+  ⟨it.deltas, c.1 ++ a.1, (it.neg ^^ c.2) ^^ a.2, it.twos⟩
 
-/-- normal form of a spin-free pattern `(label, dagger)`, slots = position mod rank -/
+/-- initial work-list entry of a spin-free request: slot = position mod rank -/
+def initSF (pattern : List (Nat × Bool)) : WItemSF :=
+  ⟨[], pattern.zipIdx.map (fun (o, i) => (o.1, o.2, if pattern.length / 2 = 0 then 0 else i % (pattern.length / 2))), false, 0⟩
+
+/-- normal form of a spin-free pattern `(label, dagger)` -/
 def wickNormalFormSF (pattern : List (Nat × Bool)) : List WItemSF :=
-  let rank := pattern.length / 2
-  let ops := pattern.zipIdx.map (fun (o, i) => (o.1, o.2, if rank = 0 then 0 else i % rank))
-  (wnormalizeSF (pattern.length * pattern.length + 1) [⟨[], ops, false, 0⟩]).map finishSF
+  (wnormalizeSF (pattern.length * pattern.length + 1) [initSF pattern]).map finishSF
 
 end Model
